@@ -98,6 +98,31 @@ Theorem Link_force_seal_sim_faults :
 Proof. exact force_seal_sim_gen. Qed.
 Print Assumptions Link_force_seal_sim_faults.
 
+(* a SHORT write (Seg/Writer.v FWriteShort: WriteAt puts the first half of the buffer
+   and returns an error) is not among wfault_of's faults: at L2 a failed AWrite has no
+   effect on the abstract file.  Result and writer of the L1 operation are those of the
+   write that fails outright (so the two theorems above with fault count 0 hold of it
+   verbatim); the only difference is the half buffer left behind the image, stale bytes
+   that readers never look at and that recovery discards (Props/C10.v, block "byte
+   level").  The L2 correspondence itself is stated for FWrite / FSync only. *)
+Theorem Link_append_short_as_write :
+  forall w es,
+    fst (append w es FWriteShort) = fst (append w es FWrite) /\
+    (snd (append w es FWriteShort) = [] \/
+     exists off buf, snd (append w es FNone) = [WWrite off buf; WSync] /\
+                     snd (append w es FWriteShort) = [WWrite off (firstn (length buf / 2) buf)]).
+Proof. exact append_short_as_write. Qed.
+Print Assumptions Link_append_short_as_write.
+
+Theorem Link_force_seal_short_as_write :
+  forall w,
+    fst (force_seal w FWriteShort) = fst (force_seal w FWrite) /\
+    (snd (force_seal w FWriteShort) = [] \/
+     exists off buf, snd (force_seal w FNone) = [WWrite off buf; WSync] /\
+                     snd (force_seal w FWriteShort) = [WWrite off (firstn (length buf / 2) buf)]).
+Proof. exact force_seal_short_as_write. Qed.
+Print Assumptions Link_force_seal_short_as_write.
+
 (* the writers Create hands out correspond *)
 Theorem Link_rep_w_init : forall info, rep_w (init_empty info) (new_wseg info).
 Proof. exact rep_w_init. Qed.
